@@ -150,8 +150,27 @@ def execute(ctx, jobs, tag):
     with open(jp, "w") as f:
         json.dump(jobs, f)
     out = ctx.path("traces", f"{tag}.ndjson")
-    _, so, _ = vp.run_driver(DRIVER, ["exec", "--work", ctx.path("dom", "x")[:-2], "--jobs", jp, "--out", out],
-                             timeout=900, env={"VERIF_SEED": ctx.seed})
+    rc, so, se = vp.run_driver(DRIVER, ["exec", "--work", ctx.path("dom", "x")[:-2], "--jobs", jp, "--out", out],
+                               timeout=900, env={"VERIF_SEED": ctx.seed}, ok_codes=None)
+    if rc in (2, 3):
+        raise vp.ToolError(f"{DRIVER} exited {rc}:\n{so[-2000:]}\n{se[-2000:]}")
+    if rc != 0:
+        # the process died inside the code under test (abort, segmentation fault, panic while panicking):
+        # that is data - the recorded prefix ends with the last call that returned
+        recs = vp.read_ndjson(out) if os.path.exists(out) else []
+        lastrun = vp.split_runs(recs)[-1] if recs else []
+        jobno = sum(1 for r in recs if r.get("k") == "reset") - 1
+        ctx.report(vp.Violation(
+            f"the process executing program #{jobno} on the real API died (exit code {rc}) after call "
+            f"{json.dumps(lastrun[-1]) if lastrun else '(none)'}",
+            replay={"job": jobs[jobno] if 0 <= jobno < len(jobs) else None, "records": lastrun[-30:], "exit_code": rc,
+                    "stderr": se[-1500:]},
+            signature=f"{jobs[jobno]['pat'] if 0 <= jobno < len(jobs) else 'bb'}:abort"))
+        events = {}
+        for r in recs:
+            if r.get("k") == "op":
+                events[f"{r['a']}:{r['res']}"] = events.get(f"{r['a']}:{r['res']}", 0) + 1
+        return out, {"jobs": max(jobno, 0), "ops": sum(events.values()), "truncated": 0, "events": events, "aborted": True}
     return out, vp.last_json_line(so)
 
 
@@ -222,6 +241,15 @@ def require_events(summary, needed, what):
     missing = [e for e in needed if summary["events"].get(e, 0) == 0]
     if missing:
         raise vp.ToolError(f"vacuous run ({what}): the real API never produced {missing}")
+
+
+def check_truncation(summary, accepted, what):
+    """The driver ends a program at the first step the live objects do not allow.  That is expected after a
+    deviation of the real API (TLC has then rejected the recorded prefix); if TLC accepted everything the
+    program itself (script / specification) is wrong."""
+    if summary.get("truncated", 0) and accepted:
+        raise vp.ToolError(f"{what}: {summary['truncated']} program(s) could not be executed to the end although "
+                           "every recorded call conforms to the specification")
 
 
 def count_probes(recs):
@@ -327,14 +355,16 @@ def c12_blackboard(ctx):
     trace, summ = execute(ctx, jobs, "c12bb")
     ctx.evaluations += summ["jobs"]
     ctx.distinct += len({json.dumps(j["program"]) for j in jobs})
-    require_events(summ, ["cw:ok", "cw:ExceedsMaxSupportedWriters", "we:ok", "we:HandleAlreadyExists",
-                          "we:EntryDoesNotExist", "upd:ok", "lw:ok", "commit:ok", "ccopy:ok", "disc:ok", "get:ok",
-                          "dw:ok", "wd:ok"], "blackboard port level")
     recs = vp.read_ndjson(trace)
     probes = count_probes(recs)
-    if probes < 3:
-        raise vp.ToolError(f"vacuous run: only {probes} refusal -> update -> read probes were executed")
     ok = validate(ctx, "bb", "BlackboardTrace", trace, jobs, "port level")
+    if ok and not summ.get("aborted"):      # vacuity guards of the trace direction (meaningless after a rejection)
+        check_truncation(summ, ok, "blackboard port level")
+        require_events(summ, ["cw:ok", "cw:ExceedsMaxSupportedWriters", "we:ok", "we:HandleAlreadyExists",
+                              "we:EntryDoesNotExist", "upd:ok", "lw:ok", "commit:ok", "ccopy:ok", "disc:ok", "get:ok",
+                              "dw:ok", "wd:ok"], "blackboard port level")
+        if probes < 3:
+            raise vp.ToolError(f"vacuous run: only {probes} refusal -> update -> read probes were executed")
     ctx.coverage["blackboard_port_level"] = {"programs": len(jobs), "calls": summ["ops"], "events": summ["events"],
                                              "refusal_update_read_probes": probes}
     run0 = vp.split_runs(recs)[-1]
